@@ -1159,7 +1159,7 @@ package stackage
 //@ modifies fresh, G_calls_len, G_calls_fn, G_calls_arg
 //@ loop 1 invariant arr(str) == 0 || fresh(arr(str))
 //@ loop 1 invariant 1 <= i && hdr(r) == old(hdr(r))
-//@ loop 1 invariant hdrsSameExcept(Cell_stack, old(Cell_stack), 0, old(alloc))
+//@ loop 1 invariant hdrsSameExcept(Cell_stack, old(Cell_stack), -1, old(alloc))
 //@ loop 1 invariant forall a :: 0 <= a && a < old(alloc) ==> Mem_Str[a] == old(Mem_Str[a])
 
 //@ func (Condition).Evaluate
